@@ -462,6 +462,10 @@ def run(tier: str, seed: int) -> int:
     run_.assumptions = ["integer bookkeeping stepper 3v+A+j is injective in order/aux/leaf", "jax.disable_jit turns lax.scan into a python loop",
                         "ordered jax.debug.callback preserves call order"]
     shutil.rmtree(work, ignore_errors=True)
+    # hook events recorded by the library itself (this process and the repository's own tests run with EXPONAX_VERIF=1), validated by
+    # TLC against spec/Trace_Hooks.tla: Trajectory, Windows
+    from .. import hooktrace as _ht
+    _ht.check(run_, PID, ['Trajectory', 'Windows'], ['tests/test_utils.py', 'tests/test_substack_trjs.py', 'tests/test_repeated_stepper.py', 'tests/test_forced_stepper.py'], {'ev': 'Trajectory', 'op': 'rollout', 'n': 3, 'include_init': True, 'lead': [3], 'struct_same': True, 'outcome': 'returned'})
     return run_.finish()
 
 
